@@ -1,5 +1,6 @@
 #include <occa/internal/lang/expr/stringNode.hpp>
 #include <occa/internal/utils/string.hpp>
+#include <occa/internal/lang/token/stringToken.hpp>
 
 namespace occa {
   namespace lang {
@@ -23,6 +24,15 @@ namespace occa {
     }
 
     void stringNode::print(printer &pout) const {
+      // The token knows what the value alone doesn't:
+      //   the encoding prefix, if the string is raw and the suffix
+      if (token && (token->type() & tokenType::string)) {
+        const stringToken &strToken = token->to<stringToken>();
+        if (strToken.value == value) {
+          pout << strToken.str();
+          return;
+        }
+      }
       pout << "\"" << escape(value, '"') << "\"";
     }
 
